@@ -4,32 +4,18 @@ use crate::support::*;
 use core::cmp::Ordering;
 pub mod ty {
     #![deny(warnings)]
-    #![allow(dead_code, unused_imports)]
+    #![allow(dead_code, unused_imports, non_snake_case)]
     use crate::support::{A, B, C, Good, Bad, m_eq, m_cmp, m_pcmp, m_hash, m_fmt, m_clone, m_clone_c, m_into, g_eq, g_cmp, g_pcmp, g_hash, g_fmt};
     use educe::Educe;
-
-    // names at the derive site that shadow everything the generated code might be tempted to write unqualified
-    #[allow(non_camel_case_types)] pub struct Option; pub struct Result; pub struct Ordering; pub struct Clone; pub struct Copy;
-    pub struct Default; pub struct Debug; pub struct PartialEq; pub struct Eq; pub struct PartialOrd; pub struct Ord; pub struct Hash;
-    pub struct Hasher; pub struct Into; pub struct From; pub struct Deref; pub struct DerefMut; pub struct Formatter; pub struct String;
-    pub struct Vec; pub struct Box; pub struct PhantomData; pub struct Sized; pub struct Send; pub struct Iterator; pub struct Self_;
-    #[allow(non_snake_case)] pub fn Some() {} #[allow(non_snake_case)] pub fn None() {} #[allow(non_snake_case)] pub fn Ok() {} #[allow(non_snake_case)] pub fn Err() {}
-    pub fn drop() {} pub mod core {} pub mod std {} pub mod alloc {} pub mod fmt {} pub mod cmp {} pub mod hash {} pub mod clone {} pub mod marker {}
-    #[allow(unused_macros)] macro_rules! stringify { ($($t:tt)*) => { "SHADOWED" } }
-    #[allow(unused_macros)] macro_rules! unreachable { ($($t:tt)*) => { () } }
-    #[allow(unused_macros)] macro_rules! panic { ($($t:tt)*) => { () } }
-    #[allow(unused_macros)] macro_rules! matches { ($($t:tt)*) => { true } }
-    #[allow(unused_macros)] macro_rules! write { ($($t:tt)*) => { () } }
-    #[allow(unused_macros)] macro_rules! format_args { ($($t:tt)*) => { () } }
-    #[allow(unused_macros)] macro_rules! assert { ($($t:tt)*) => { () } }
 #[derive(Educe)]
-#[educe(PartialOrd, Eq, Ord, PartialEq)]
-pub enum T { Zed(#[educe(PartialOrd = false)] A<0>, #[educe(PartialOrd(method = m_cmp))] A<1>), C { #[educe(PartialOrd(ignore))] source: A<0>, #[educe(PartialOrd(rank(4)))] other_data: A<1> }, A, V1 { #[educe(PartialOrd(method = "m_cmp"))] arg: A<0>, #[educe(PartialOrd(ignore(true)))] size: A<1>, r#type: A<2>, #[educe(PartialOrd(rank("0")))] a: A<0> } }
+#[repr(i64)]
+#[educe(Eq, PartialEq, PartialOrd, Ord)]
+pub enum T { Unit { #[educe(PartialOrd(method = "m_cmp"))] r#type: A<0>, #[educe(PartialOrd(method = m_cmp, rank = -4))] size: A<1> }, B { #[educe(PartialOrd(rank = "-4"))] other: A<0> } = 3, Some {  } = 2 }
 }
 pub use ty::T;
 
-pub fn values() -> Vec<T> { vec![T::Zed(A(0), A(0)), T::Zed(A(0), A(1)), T::Zed(A(0), A(7)), T::Zed(A(1), A(0)), T::Zed(A(1), A(1)), T::Zed(A(1), A(7)), T::Zed(A(7), A(0)), T::Zed(A(7), A(1)), T::Zed(A(7), A(7)), T::C { source: A(0), other_data: A(0) }, T::C { source: A(0), other_data: A(1) }, T::C { source: A(0), other_data: A(7) }, T::C { source: A(1), other_data: A(0) }, T::C { source: A(1), other_data: A(1) }, T::C { source: A(1), other_data: A(7) }, T::C { source: A(7), other_data: A(0) }, T::C { source: A(7), other_data: A(1) }, T::C { source: A(7), other_data: A(7) }, T::A, T::V1 { arg: A(0), size: A(0), r#type: A(7), a: A(7) }, T::V1 { arg: A(0), size: A(0), r#type: A(7), a: A(0) }, T::V1 { arg: A(1), size: A(7), r#type: A(0), a: A(7) }, T::V1 { arg: A(7), size: A(0), r#type: A(1), a: A(7) }, T::V1 { arg: A(7), size: A(7), r#type: A(1), a: A(1) }, T::V1 { arg: A(7), size: A(0), r#type: A(1), a: A(0) }, T::V1 { arg: A(1), size: A(7), r#type: A(7), a: A(7) }, T::V1 { arg: A(1), size: A(0), r#type: A(0), a: A(0) }, T::V1 { arg: A(0), size: A(0), r#type: A(1), a: A(7) }] }
-pub fn show(x: &T) -> String { #[allow(unused_variables)] match x { T::Zed(p0, p1) => format!("Zed({},{})", sv(p0), sv(p1)), T::C { source: p0, other_data: p1 } => format!("C({},{})", sv(p0), sv(p1)), T::A => format!("A()"), T::V1 { arg: p0, size: p1, r#type: p2, a: p3 } => format!("V1({},{},{},{})", sv(p0), sv(p1), sv(p2), sv(p3)) } }
-pub fn o_disc(x: &T) -> i128 { match x { T::Zed(_, _) => 0, T::C { source: _, other_data: _ } => 1, T::A => 2, T::V1 { arg: _, size: _, r#type: _, a: _ } => 3 } }
-pub fn o_cmp(a: &T, b: &T) -> Ordering { match (a, b) { (T::Zed(a0, a1), T::Zed(b0, b1)) => { let c = m_cmp(a1, b1); if c != Ordering::Equal { return c; } Ordering::Equal }, (T::C { source: a0, other_data: a1 }, T::C { source: b0, other_data: b1 }) => { let c = ::core::cmp::Ord::cmp(a1, b1); if c != Ordering::Equal { return c; } Ordering::Equal }, (T::A, T::A) => {  Ordering::Equal }, (T::V1 { arg: a0, size: a1, r#type: a2, a: a3 }, T::V1 { arg: b0, size: b1, r#type: b2, a: b3 }) => { let c = m_cmp(a0, b0); if c != Ordering::Equal { return c; } let c = ::core::cmp::Ord::cmp(a2, b2); if c != Ordering::Equal { return c; } let c = ::core::cmp::Ord::cmp(a3, b3); if c != Ordering::Equal { return c; } Ordering::Equal }, _ => o_disc(a).cmp(&o_disc(b)) } }
+pub fn values() -> Vec<T> { vec![T::Unit { r#type: A(0), size: A(0) }, T::Unit { r#type: A(0), size: A(1) }, T::Unit { r#type: A(0), size: A(7) }, T::Unit { r#type: A(1), size: A(0) }, T::Unit { r#type: A(1), size: A(1) }, T::Unit { r#type: A(1), size: A(7) }, T::Unit { r#type: A(7), size: A(0) }, T::Unit { r#type: A(7), size: A(1) }, T::Unit { r#type: A(7), size: A(7) }, T::B { other: A(0) }, T::B { other: A(1) }, T::B { other: A(7) }, T::Some {  }] }
+pub fn show(x: &T) -> String { #[allow(unused_variables)] match x { T::Unit { r#type: p0, size: p1 } => format!("Unit({},{})", sv(p0), sv(p1)), T::B { other: p0 } => format!("B({})", sv(p0)), T::Some {  } => format!("Some()") } }
+pub fn o_disc(x: &T) -> i128 { match x { T::Unit { r#type: _, size: _ } => 0, T::B { other: _ } => 3, T::Some {  } => 2 } }
+pub fn o_cmp(a: &T, b: &T) -> Ordering { match (a, b) { (T::Unit { r#type: a0, size: a1 }, T::Unit { r#type: b0, size: b1 }) => { let c = m_cmp(a0, b0); if c != Ordering::Equal { return c; } let c = m_cmp(a1, b1); if c != Ordering::Equal { return c; } Ordering::Equal }, (T::B { other: a0 }, T::B { other: b0 }) => { let c = ::core::cmp::Ord::cmp(a0, b0); if c != Ordering::Equal { return c; } Ordering::Equal }, (T::Some {  }, T::Some {  }) => {  Ordering::Equal }, _ => o_disc(a).cmp(&o_disc(b)) } }
 pub fn run(out: &mut Out) { let vs = values(); for (i, a) in vs.iter().enumerate() { for (j, b) in vs.iter().enumerate() { let e = o_cmp(a, b); let g = ::core::cmp::Ord::cmp(a, b); out.check(g == e, "ord_2", "cmp", || format!("cmp({}, {}) = {:?} expected {:?}", show(a), show(b), g, e)); let g2 = ::core::cmp::PartialOrd::partial_cmp(a, b); out.check(g2 == Some(e), "ord_2", "partial_is_some_cmp", || format!("partial_cmp({}, {}) = {:?} expected Some({:?})", show(a), show(b), g2, e)); } } }
